@@ -42,7 +42,10 @@ class ShortLinkControl(BitsInterface):
             )
             self.crc_ok: bool = True
         else:
-            self.crc_ok: bool = CRC8.check(self.as_bits()[:28], ba2int(self.crc_8bit))
+            # CRC-8 is transmitted LSB first (see generation above)
+            self.crc_ok: bool = CRC8.check(
+                self.as_bits()[:28], ba2int(self.crc_8bit[::-1])
+            )
 
     def __repr__(self) -> str:
         descr: str = f"[{self.slco}]"
